@@ -188,7 +188,7 @@ fn leave(s: &Arc<Sched>, me: usize) {
 }
 
 pub const D3_FAULTS: &[&str] = &["thread_switch", "last_drop_between_upgrade_and_register", "last_drop_between_register_and_temp_drop", "last_drop_before_first_poll", "concurrent_token_drops"];
-pub const D3_PROBES: &[&str] = &["spurious_repoll", "repolled_with_new_waker_identity", "poller_blocked_then_woken", "ready_at_first_poll", "wake_from_temp_arc_drop", "poller_polled_3plus", "hook_points_seen", "waker_clone_points_seen"];
+pub const D3_PROBES: &[&str] = &["slot_checked_after_ready", "spurious_repoll", "repolled_with_new_waker_identity", "poller_blocked_then_woken", "ready_at_first_poll", "wake_from_temp_arc_drop", "poller_polled_3plus", "hook_points_seen", "waker_clone_points_seen"];
 
 /// C14 wait group: one poller thread on the shutdown future, 1..3 dropper threads.
 pub fn c14_wg(cx: &mut Ctx) -> VResult {
@@ -198,8 +198,11 @@ pub fn c14_wg(cx: &mut Ctx) -> VResult {
 
     let n_tokens = 1 + cx.ch.weighted(&[3, 3, 2, 1]);
     let n_droppers = 1 + cx.ch.pick(3.min(n_tokens as u32)) as usize;
-    let cfg = config(64, 8);
+    // the limit equals the number of tokens: once the shutdown future is Ready every token has been dropped, so
+    // every slot is free again and a fresh request on a clone of the runner must be served at its first poll
+    let cfg = config(64, n_tokens);
     let runner = cfg.async_runner();
+    let clone = runner.clone();
     let mut tokens: Vec<Token> = Vec::new();
     for _ in 0..n_tokens {
         let fut = runner.get_token();
@@ -267,6 +270,20 @@ pub fn c14_wg(cx: &mut Ctx) -> VResult {
                         }
                         if g.polls == 1 { g.probes.push("ready_at_first_poll"); }
                         if g.polls >= 3 { g.probes.push("poller_polled_3plus"); }
+                        drop(g);
+                        // "after the last token has been dropped": dropped completely - its connection slot included
+                        let served = {
+                            let fut = clone.get_token();
+                            futures_util::pin_mut!(fut);
+                            let w = Waker::from(crate::exec::WakeFlag::new(false));
+                            let mut c = Context::from_waker(&w);
+                            fut.poll(&mut c).is_ready()
+                        };
+                        let mut g = lock_inner(&sp);
+                        g.probes.push("slot_checked_after_ready");
+                        if !served && g.violation.is_none() {
+                            g.violation = Some(Violation::new("c14_ready_before_token_fully_dropped", "threads", "shutdown future Ready, but a request on a clone of the runner (limit = number of tokens) was not served at once: a dropped token still occupies its connection slot".into()));
+                        }
                         break;
                     }
                     // wait for the waker: blocked unless already woken
